@@ -260,7 +260,14 @@ static bool runIter(uint64_t seed, uint64_t idx, int onlyTd, int onlyProto)
     if (setupOk && (td == DropInOnClose || td == DropInOnData || td == StopFromCb))
     {
       trigSid = mk(udp ? nullptr : trig.get());
-      if (!trigSid) setupOk = false; else trigLocalPort = t->getLocalAddress(trigSid).port;
+      if (!trigSid) setupOk = false;
+      else
+      {
+        // UDP connectSync returns before the I/O thread has created the session: wait for its socket
+        uint64_t until = vf::nowNs() + 5000000000ull;
+        while ((trigLocalPort = t->getLocalAddress(trigSid).port) == 0 && vf::nowNs() < until) vf::sleepMs(0.2);
+        if (!trigLocalPort) setupOk = false;
+      }
     }
     if (!setupOk) { O.inconclusive("session setup failed in iteration " + std::to_string(idx)); iterOk = false; t->stop(); break; }
     if (udp && rng.chance(0.5))
@@ -357,6 +364,7 @@ static bool runIter(uint64_t seed, uint64_t idx, int onlyTd, int onlyProto)
     // storm threads (co-owning)
     std::atomic<uint64_t> stormOps{0}, sendTrue{0}, sendFalse{0}, closeTrue{0}, closeFalse{0}, listenOk{0}, listenErr{0}, connOk{0}, connErr{0};
     std::atomic<uint64_t> opsAfterTd{0};
+    std::atomic<int> stopsReturned{0};
     for (int i = 0; i < nStorm; i++)
     {
       W.emplace_back(new Worker()); Worker *w = W.back().get();
@@ -365,11 +373,17 @@ static bool runIter(uint64_t seed, uint64_t idx, int onlyTd, int onlyProto)
       w->th = std::thread([&, w, own, s0]() mutable {
         vf::Rng r(s0);
         int after = int(r.range(0, 6));
+        int listens = 0;
         for (;;)
         {
+          // destroying kinds: co-owners must let go once teardown began (one of these releases is the
+          // last one). stop kinds: keep hammering through the whole shutdown drain, until stop() has
+          // returned, then a few more operations on the stopped transport.
           bool begun = tdBegun.load();
-          if (begun) { if (after-- <= 0) break; opsAfterTd++; }
+          if (begun) opsAfterTd++;
+          if (begun && (destroying || stopsReturned.load() > 0)) { if (after-- <= 0) break; }
           int k = int(r.below(10));
+          if (k >= 5 && k < 7 && ++listens > 24 && !begun) k = 9; // bounded number of listening sockets
           w->t0 = vf::nowNs();
           try
           {
@@ -381,7 +395,7 @@ static bool runIter(uint64_t seed, uint64_t idx, int onlyTd, int onlyProto)
           }
           catch (const std::exception &ex) { w->inCall = false; w->threw = true; w->what = ex.what(); }
           stormOps++;
-          if (VF_TSAN || r.chance(0.3)) vf::sleepMs(0.02 * double(r.below(10)));
+          vf::sleepMs(0.02 + 0.02 * double(r.below(10)));
         }
         w->op = OpDrop; w->t0 = vf::nowNs(); w->inCall = true;
         own.reset(); // in the destroying kinds one of these releases is the last one
@@ -399,7 +413,6 @@ static bool runIter(uint64_t seed, uint64_t idx, int onlyTd, int onlyProto)
       st->trigger = td == DropInOnClose ? 2 : td == DropInOnData ? 3 : 4;
       st->closeOnTrigger = (td == DropInOnClose) ? trigSid : 0;
     }
-    std::atomic<int> stopsReturned{0};
     auto addStopper = [&](vfnet::YieldBarrier *bar) {
       W.emplace_back(new Worker()); Worker *w = W.back().get();
       std::shared_ptr<Transport> own = t;
@@ -474,6 +487,12 @@ static bool runIter(uint64_t seed, uint64_t idx, int onlyTd, int onlyProto)
       {
         uint64_t gap = g_hb->maxGapNs(tdT0.load(), now);
         bool any = false;
+        if ((selfDestruct && !st->triggered.load()) || (td == StopFromCb && !tdBegun.load()))
+        {
+          // the raw peer's trigger never reached the callback: nothing was torn down, nothing to judge
+          O.line("{\"t\":\"stuck\",\"idx\":" + std::to_string(idx) + ",\"key\":\"harness:trigger-never-fired\",\"hb_gap_ms\":" + std::to_string(gap / 1000000ull) + ",\"desc\":" + desc + "}");
+          O.flush(); fflush(nullptr); _exit(5);
+        }
         for (auto &w : W)
           if (!w->done.load())
           {
@@ -570,13 +589,17 @@ static bool runIter(uint64_t seed, uint64_t idx, int onlyTd, int onlyProto)
 
     // ---- (c) callback fence
     vf::sleepMs(1);
-    for (int k = 0; k < NCb; k++)
-      if (uint64_t n = st->fenceViol[k].exchange(0))
-        O.viol(std::string("C05:fence:") + kCb[k] + "-on-io-thread-after-" + (destroying ? "destroying-reset" : "stop") + "-returned:" + tdp,
-               std::string(kCb[k]) + " was entered on the I/O thread after " + (destroying ? "the destroying reset()" : "stop()") + " had returned to a non-callback caller (" + std::to_string(n) + " times)", desc);
-    if (uint64_t n = st->fenceViolFlush.exchange(0))
-      O.viol("C05:fence:onData-via-setReadMode-flush-after-stop-returned:" + tdp,
-             "onData was entered on a setReadMode(Sync->Async) flusher thread after stop() had returned (" + std::to_string(n) + " times)", desc);
+    {
+      std::string kinds; uint64_t total = 0;
+      for (int k = 0; k < NCb; k++)
+        if (uint64_t n = st->fenceViol[k].exchange(0)) { kinds += std::string(kinds.empty() ? "" : ", ") + kCb[k] + " x" + std::to_string(n); total += n; }
+      if (total)
+        O.viol(std::string("C05:fence:callback-after-") + (destroying ? "destroying-reset" : "stop") + "-returned:" + tdp,
+               std::string("callbacks were entered on the I/O thread after ") + (destroying ? "the destroying reset()" : "stop()") + " had returned to a non-callback caller: " + kinds, desc);
+    }
+    // onData entered on a *flusher's own thread*, synchronously inside its own setReadMode(Sync->Async)
+    // call, is the caller draining its buffer, not the transport calling back: counted, not a violation
+    if (uint64_t n = st->fenceViolFlush.exchange(0)) O.obs("onData_delivered_inside_callers_own_setReadMode_flush_after_stop_returned", n);
     O.obs("fence_checks");
     if (!t) break; // destroyed in this cycle
   }
